@@ -61,7 +61,7 @@ static void do_op(Cmd *c) {
         o_stat(st);
     } else if (is_op(c, "new_default")) {
         if (Q[k]) { o("st=- busy"); o_sep(); o("-"); return; }
-        default_mode = 1; CC_Queue *q = NULL; st = cc_queue_new(&q); Q[k] = st == CC_OK ? q : NULL; o_stat(st);
+        CC_Queue *q = NULL; st = cc_queue_new(&q); Q[k] = st == CC_OK ? q : NULL; o_stat(st);
     } else if (is_op(c, "destroy")) {
         for (int i = 0; i < NSLOT; i++) if (Q[i]) { cc_queue_destroy(Q[i]); Q[i] = NULL; }
         it_slot = zit_a = zit_b = -1; o("st=-");
